@@ -780,7 +780,8 @@ impl LunarDay {
     let a_month: isize = self.get_month();
     let b_month: isize = target.get_month();
     if a_month != b_month {
-      return a_month.abs() < b_month.abs();
+      // 闰月排在同数字的非闰月之后，按月在年中的索引比较
+      return self.month.get_index_in_year() < target.get_lunar_month().get_index_in_year();
     }
     self.day < target.get_day()
   }
@@ -794,7 +795,7 @@ impl LunarDay {
     let a_month: isize = self.get_month();
     let b_month: isize = target.get_month();
     if a_month != b_month {
-      return a_month.abs() >= b_month.abs();
+      return self.month.get_index_in_year() > target.get_lunar_month().get_index_in_year();
     }
     self.day > target.get_day()
   }
